@@ -163,17 +163,26 @@ impl<S: BuildHasher + Clone + 'static> ExpirationMap<S> {
             return Ok(());
         }
 
-        let (old_bucket_num, new_bucket_num) =
-            (storage_bucket(old_exp_time), storage_bucket(new_exp_time));
+        let mut m = self.buckets.write();
 
-        if old_bucket_num == new_bucket_num {
+        // Only an entry that had a TTL is listed in a bucket: take this key (and only
+        // this key) out of it.
+        if !old_exp_time.is_zero() {
+            let old_bucket_num = storage_bucket(old_exp_time);
+            if let Some(bucket) = m.get_mut(&old_bucket_num) {
+                bucket.map.remove(&key);
+                if bucket.map.is_empty() {
+                    m.remove(&old_bucket_num);
+                }
+            }
+        }
+
+        // Items that don't expire don't need to be in the expiration map.
+        if new_exp_time.is_zero() {
             return Ok(());
         }
 
-        let mut m = self.buckets.write();
-
-        m.remove(&old_bucket_num);
-
+        let new_bucket_num = storage_bucket(new_exp_time);
         match m.get_mut(&new_bucket_num) {
             None => {
                 let mut bucket = Bucket::with_hasher(self.hasher.clone());
